@@ -62,25 +62,9 @@ def units(t: float) -> int:
     return int(round((t - T0) / UNIT))
 
 
-_SCHED = None
-
-
 def new_sched(chooser, max_steps=4000):
-    """ds.Scheduler whose me() ignores finished threads (OS thread idents are reused after a thread exits)."""
-    global _SCHED
     from harness import detsched as ds
-    if _SCHED is None:
-        import threading as _rt
-
-        class Sched(ds.Scheduler):
-            def me(self):
-                ident = _rt.get_ident()
-                for t in self.threads:
-                    if t.real is not None and not t.done and t.real.ident == ident:
-                        return t
-                return None
-        _SCHED = Sched
-    return _SCHED(chooser, max_steps=max_steps)
+    return ds.Scheduler(chooser, max_steps=max_steps)
 
 
 # ====================================================================== part 1: debouncer
